@@ -122,6 +122,15 @@ func runCase(c *tcase, out *bufio.Writer) {
 			time.Sleep(time.Duration(c.DelayUs) * time.Microsecond)
 		}
 	}
+	if note == "" {
+		select {
+		case r := <-done:
+			// the evaluation had already returned when the cancellation was due: its result is not one of a cancelled run
+			done <- r
+			note = "EARLYDONE"
+		default:
+		}
+	}
 	t0 := time.Now()
 	cancel()
 	var r result
